@@ -111,11 +111,11 @@ func runC17(c *Ctx) {
 	nDeleg := 0
 	for _, ci := range allCalls(rd) {
 		cc := ci.Common()
-		if !cc.IsInvoke() {
+		if ifaceMethodCalled(cc) == "" {
 			continue
 		}
 		nDeleg++
-		ok := isUnderlying(rd)(cc.Value) && cc.Method.Name() == "Read"
+		ok := isUnderlying(rd)(ifaceReceiver(cc)) && ifaceMethodCalled(cc) == "Read"
 		c.obI("R17.1", ci, "read-delegates-to-buffer", ok, "peekingReader.Read reads only from the buffered reader that holds the peeked byte", "call of "+calleeName(cc)+" on "+describe(cc.Value))
 		if ok {
 			okA, _ := allOrigins(cc.Args[0], oIsValue(rd.Params[1]))
@@ -207,13 +207,13 @@ func runC17(c *Ctx) {
 			}
 			isCount := false
 			if call := asCall(bo.X); call != nil {
-				if call.Call.IsInvoke() && call.Call.Method.Name() == "Buffered" {
+				if ifaceMethodCalled(&call.Call) == "Buffered" {
 					isCount = true
 				}
 				if calleeName(&call.Call) == "builtin len" {
 					isCount, _ = allOrigins(call.Call.Args[0], func(o Origin) bool {
 						pk := asCall(o.V)
-						return pk != nil && pk.Call.IsInvoke() && pk.Call.Method.Name() == "Peek"
+						return pk != nil && ifaceMethodCalled(&pk.Call) == "Peek"
 					})
 				}
 			}
